@@ -157,7 +157,7 @@ func c06Netns(c *Ctx) {
 		if len(hist) > 0 {
 			// every earlier call put exactly one request on the network: wait (bounded) until the farm has logged them all -
 			// a TCP request of a call that does not wait for a reply can be read by the farm well after the call returned
-			for q := 0; q < 500 && total() < histBefore+int64(len(hist)); q++ {
+			for q := 0; q < 500 && total() < histBefore+int64(c06NetCalls(hist)); q++ {
 				time.Sleep(2 * time.Millisecond)
 			}
 			time.Sleep(3 * time.Millisecond)
